@@ -683,6 +683,11 @@ def manifest():
     with open(os.path.join(ROOT, "properties.jsonl")) as f:
         all_ids = [json.loads(l)["id"] for l in f if l.strip()]
     checks = []
+    # checks/ready.txt: the properties whose check has been integrated (run on the unchanged tree, reviewed,
+    # committed); a check module that is still being built is not claimed yet
+    ready_path = os.path.join(ROOT, "checks", "ready.txt")
+    ready = set(open(ready_path).read().split()) if os.path.exists(ready_path) else set(mods)
+    mods = {k: v for k, v in mods.items() if k in ready}
     for pid in all_ids:
         if pid not in mods:
             continue
